@@ -86,10 +86,12 @@ def fault_matrix_cases(tier, rng):
                     yield sc
             # Filestore Rejection (4) declared while the destination file is created: at the transaction start, and by the
             # re-sent Metadata PDU while the deferred NAK procedure is already running (Metadata lost, EOF first)
-            for drop_md in (False, True):
-                cfg = Cfg(mode=0, closure=rng.random() < 0.5, max_seg=4, cktype=rng.choice([2, 3]), ack_limit=3, nak_limit=3,
+            for drop_md, size, ck in ((False, 9, 3), (True, 9, 3), (True, 9, 2), (True, 0, 15), (True, 0, 3), (False, 0, 15)):
+                # (empty file + NULL checksum + Metadata after the EOF: nothing is tracked as lost when the rejection is
+                # declared - the deferred procedure must not verify and complete the cancelled transaction: F35)
+                cfg = Cfg(mode=0, closure=rng.random() < 0.5, max_seg=4, cktype=ck, ack_limit=3, nak_limit=3,
                           imm_nak=False, disposition=rng.random() < 0.4, **tables((4, 5, 7)))
-                data = bytes(rng.getrandbits(8) for _ in range(9))
+                data = bytes(rng.getrandbits(8) for _ in range(size))
                 yield campaign.TransferCase(cfg, [data], [Fault("s2d", 0, "drop")] if drop_md else [], None, reject_round=0,
                                             reject_mode=2, tag="c14m")
             # File Size Error (6): File Data beyond the EOF's size / EOF smaller than the progress (receiver alone)
